@@ -55,6 +55,8 @@ def configs(tier):
             out.append(dict(kind="hetero", labels=nl, dofs=dofs))
         out.append(dict(kind="threshold", labels=nl, upper=True))
         out.append(dict(kind="threshold", labels=nl, upper=False))
+    for first in ([2, 2], [2, 4], [8, 8]):
+        out.append(dict(kind="hetero_history", first=first))
     out.append(dict(kind="threshold", labels=0, upper=True))
     out.append(dict(kind="threshold", labels=0, upper=False))
     for kern in ("gaussian", "linear"):
@@ -261,6 +263,24 @@ def body(cfg):
             ok.append(S.eq(y[idx], hom(x)[idx]))
         S.claim("heterogeneous_model_agrees_with_homogeneous_model_on_each_label", S.and_(tuple(y.shape) == lab.shape, S.and_(ok)))
         S.claim("second_call_same_result", S.eq(m(x), y))
+        return
+    if k == "hetero_history":
+        # a call at another resolution (labels resized internally) must not influence a later call
+        lab = np.array([[0, 1, 0, 2], [0, 1, 1, 2], [3, 1, 0, 2], [3, 3, 0, 0]])
+        nl = 4
+        s = S.array("s", nl, lo=-3, hi=3)
+        o = S.array("o", nl, lo=-3, hi=3)
+        m = darsia.HeterogeneousLinearModel(lab, scaling=s.copy(), offset=o.copy())
+        x1 = S.array("x1", tuple(cfg["first"]), lo=-10, hi=10)
+        x2 = S.array("x2", lab.shape, lo=-10, hi=10)
+        y1 = m(x1)
+        y2 = m(x2)
+        ok = []
+        for idx in np.ndindex(*lab.shape):
+            l_ = int(lab[idx])
+            ok.append(S.eq(y2[idx], s[l_] * x2[idx] + o[l_]))
+        S.claim("call_at_native_resolution_after_another_resolution_uses_the_original_labels", S.and_(ok))
+        S.claim("other_resolution_result_shape", tuple(y1.shape) == tuple(cfg["first"]))
         return
     if k == "threshold":
         nl = cfg["labels"]
